@@ -323,6 +323,24 @@ func (m *Model) must(start node) (regs []*Reg, decs []*Dec) {
 			}
 		}
 	}
+	// a function that a not-yet-built decorator needs may be built while that decorator is on the
+	// stack or not, depending on evaluation order: whether its optional dependencies are then
+	// available is not decided by the spec state
+	reach := map[*Dec]map[int]bool{}
+	underUnbuiltDecorator := func(n node) bool {
+		for _, d := range m.decs {
+			if m.isDoneD(d) || d == n.self {
+				continue
+			}
+			if reach[d] == nil {
+				reach[d] = m.may(decNode(d))
+			}
+			if reach[d][n.f.ID] {
+				return true
+			}
+		}
+		return false
+	}
 	for len(q) > 0 {
 		n := q[0]
 		q = q[1:]
@@ -356,7 +374,7 @@ func (m *Model) must(start node) (regs []*Reg, decs []*Dec) {
 			}
 			if !p.Optional {
 				addR(r, n.excl)
-			} else if m.availRegX(r, n.excl) == avYes {
+			} else if !underUnbuiltDecorator(n) && m.availRegX(r, n.excl) == avYes {
 				addR(r, n.excl)
 			}
 		}
